@@ -164,7 +164,7 @@ EXTRA = {
  "C09": " C09_load_ignores_undecodable (session content never depends on undecodable cookies) and C09_undecodable_ignored (new state equal, response equal up to deletion headers for chunk cookies) hold unconditionally; the opacity measurement includes a main-cookie size sweep up to and beyond the codec's length cap. Every emitted cookie value is also read as plain text, URL-escaped text and base64 (not only as a securecookie), against the session content AND the request URI; hand-written cookies with look-alike names (the deployment's prefix + 40 suffixes) carrying unique markers are planted before callbacks and ordinary requests, and a marker surfacing in a Location, body, forwarded header or stored cookie is a violation (flag 8).",
  "C12": " A quarter of the histories run through the TokenCache wrapper (prefixed keys, claims maps) around the cache, judged by the same model; C12_wrapper_outputs / C12_wrapper_history: the cache behind ANY injective renaming of keys gives the same outputs, so every C12 statement holds of the wrapper with the caller's keys. Lifetimes range from negative to math.MaxInt64.",
  "C13": " The stress run includes a retention phase (writers re-store their own key live while sweepers call Cleanup; a live entry below capacity must always be found) and an LRU phase (the least recently used entry of a full cache is looked up while other goroutines hold the lock, then one key is stored: the looked-up entry must survive).",
- "C17": " C17_login_heals / C17_save_heals: a successful callback turns ANY jar whose chunk cookies form a prefix (junk, other keys, renamed cookies under every name) into a contiguous jar holding exactly the stored session; C17_prefix_invariant / C17_prefix_tamper: that premise is preserved by every response and by tampering with cookie values; C17_redirect_starts_login: every login redirect stores the state it shows.",
+ "C17": " C17_overage_session: a session whose main cookie opens under the key but began more than 24 h ago gets the login redirect on every gated path, for every ready instance state (monitor c17_age_step on every observed step). C17_login_heals / C17_save_heals: a successful callback turns ANY jar whose chunk cookies form a prefix (junk, other keys, renamed cookies under every name) into a contiguous jar holding exactly the stored session; C17_prefix_invariant / C17_prefix_tamper: that premise is preserved by every response and by tampering with cookie values; C17_redirect_starts_login: every login redirect stores the state it shows.",
  "C19": " Supporting runs also check that 35 sessions issued by another instance are all served by a fresh instance with rateLimit 10 (session traffic is exempt) and that a refresh with the limiter drained is refused. The limiter construction is measured for every configured limit 10..130 and a spread up to 10000 (values that do not divide a second, values above 1000); arrival patterns are also run for such limits.",
  "C20": " C20_stays_serving: once healed, no request is turned away while the provider keeps its document, whatever shifts / refresh ticks / cleanups happen; one case runs with the middleware's DEFAULT HTTP client (measured timeout) against a provider that sends headers and stalls the body; C20_endpoints_of_one_document (monitor clause ep_ok): all six endpoint fields of a ready instance are those of ONE document the provider handed out.",
 }
